@@ -12,7 +12,8 @@ for mp in sorted(glob.glob(os.path.join(ROOT, "seeded", "*", "meta.json"))):
         for pid, r in res.items():
             cells.append(f"{pid}/{tier}: rc={r['rc']} {', '.join(r['keys'][:4])}")
     rows.append((d, m.get("property"), m.get("summary", ""), m.get("needs", ""),
-                 ", ".join(m.get("detected_by", [])) or "NOT DETECTED", "; ".join(cells)))
+                 ", ".join(m.get("detected_by", [])) or ("- (" + m["status"] + ")" if m.get("status") else "NOT DETECTED"),
+                 "; ".join(cells)))
 with open(os.path.join(ROOT, "seeded", "INDEX.md"), "w") as f:
     f.write("# Independently written property-breaking changes\n\n"
             "Each was produced by a fresh sub-agent that saw only the property text and a scratch worktree, "
